@@ -3,7 +3,15 @@
 Writes /verif/seeded/MUTANTS.md. Do not run while anything else uses /repo."""
 import json, os, subprocess, sys, shutil, tempfile, time
 muts = json.load(open("/verif/tools/mutants.json"))
-only = set(sys.argv[1:])
+args = sys.argv[1:]
+# --isolated: mutate a scratch worktree and point the checks at it (VERIF_REPO) instead of touching /repo
+isolated = "--isolated" in args
+only = set(a for a in args if not a.startswith("--"))
+ROOT = "/repo"
+if isolated:
+    ROOT = "/tmp/mutsweep-target"
+    subprocess.run("git -C /repo worktree remove --force %s" % ROOT, shell=True, stdout=subprocess.DEVNULL, stderr=subprocess.DEVNULL)
+    subprocess.run("git -C /repo worktree add -q --detach %s HEAD" % ROOT, shell=True, check=True)
 rows = []
 backup = tempfile.mkdtemp(prefix="evidence-")
 shutil.copytree("/verif/evidence", backup + "/e")
@@ -11,20 +19,22 @@ try:
     for m in muts:
         if only and m["name"] not in only:
             continue
-        path = os.path.join("/repo", m["file"])
+        path = os.path.join(ROOT, m["file"])
         src = open(path).read()
         if m["old"] not in src:
             rows.append((m["name"], m["file"], "DID NOT APPLY", "")); print(m["name"], "did not apply"); continue
         open(path, "w").write(src.replace(m["old"], m["new"], 1))
         try:
             e = dict(os.environ); e.pop("GOTOOLCHAIN", None); e["GOFLAGS"] = "-mod=mod"
-            b = subprocess.run("cd /repo && go build ./... 2>&1 | tail -3", shell=True, stdout=subprocess.PIPE, text=True, env=e)
+            if isolated:
+                e["VERIF_REPO"] = ROOT
+            b = subprocess.run("cd %s && go build ./... 2>&1 | tail -3" % ROOT, shell=True, stdout=subprocess.PIPE, text=True, env=e)
             if b.stdout.strip():
                 rows.append((m["name"], m["file"], "DOES NOT BUILD", b.stdout.strip()[:80])); print(m["name"], "no build"); continue
             verdicts = []
             for c in m["checks"]:
                 t0 = time.time()
-                p = subprocess.run(["/verif/check", c], stdout=subprocess.PIPE, stderr=subprocess.STDOUT, text=True)
+                p = subprocess.run(["/verif/check", c], stdout=subprocess.PIPE, stderr=subprocess.STDOUT, text=True, env=e)
                 v = {1: "detected", 0: "MISSED", 2: "inconclusive"}.get(p.returncode, "rc%d" % p.returncode)
                 verdicts.append("%s %s (%.0fs)" % (c, v, time.time() - t0))
             rows.append((m["name"], m["file"], "; ".join(verdicts), ""))
@@ -36,6 +46,8 @@ finally:
     shutil.copytree(backup + "/e", "/verif/evidence")
     shutil.rmtree(backup, ignore_errors=True)
     subprocess.run(["git", "-C", "/repo", "status", "--short"])
+    if isolated:
+        subprocess.run("git -C /repo worktree remove --force %s; rm -rf /verif/.build-alt-*" % ROOT, shell=True)
 if not only:
     out = ["# Hand-written mutants (tools/mutants.json) and the verdict of the quick tier", "", "| mutant | file | verdict |", "|---|---|---|"]
     for r in rows:
